@@ -440,6 +440,8 @@ fn plans(prop: &str, tier: Tier) -> Vec<Plan> {
 pub fn run(prop: &'static str, tier: Tier) -> i32 {
     let reporter = Reporter::new(prop);
     let mut ev = Evidence::new(prop, tier);
+    // the same statements through the real link layer (connection tasks over in-memory streams)
+    crate::e7_flow::run_part(prop, tier, &reporter, &mut ev);
     explore_plans(prop, tier, &reporter, &mut ev, 1.0);
     ev.violations = reporter.new_violations();
     let notes: Vec<String> = reporter.notes().iter().map(|(c, n)| format!("{c}: {n}")).collect();
